@@ -3,6 +3,7 @@
 // source form x stylesheet form x target form x API layer, with benign transport perturbations always on.
 #include "xform.hpp"
 #include <xalanc/XalanTransformer/XalanCAPI.h>
+#include <xalanc/PlatformSupport/URISupport.hpp>
 #include <sys/wait.h>
 #include <fcntl.h>
 
@@ -42,22 +43,29 @@ struct C05 : public Driver {
         static const std::vector<std::string> encs = { "UTF-8", "UTF-8", "UTF-8", "ISO-8859-1", "US-ASCII", "UTF-16" }; sc.encoding = g.pick(encs); sc.cdataElems = g.chance(1, 8);
         static const std::vector<std::string> orders = { "doc", "rk", "rev" }; sc.order = g.pick(orders);
         bool useParams = g.chance(1, 3); if (useParams) sc.on.insert("paramuse");
+        // self-reference mode: the stylesheet reaches the source document again through document('doc.xml') and looks at node identity.  Every form must
+        // have registered the source under the URL its system id stands for, however the caller wrote that system id.
+        Rng gs = root.fork("selfdoc"); const bool selfDoc = run % 8 == 3; sc.selfDoc = selfDoc;
         GenSS s = genStylesheet(g, sc, d);
         p["doc"] = d.xml; p["xsl"] = s.xsl; p["encoding"] = sc.encoding; p["dtd"] = dc.dtd;
         Json res = Json::object(); for (auto& kv : s.resources) res[kv.first] = kv.second; p["resources"] = res;
         Json feats = Json::array(); for (auto& f : s.features) feats.push(f); p["features"] = feats;
         Json params = Json::array(); if (useParams) { Json a = Json::object(); a["name"] = "P1"; a["kind"] = "string"; a["value"] = "pv" + std::to_string(g.below(100)); params.push(a); Json b = Json::object(); b["name"] = "P2"; b["kind"] = "number"; b["value"] = std::to_string(g.range(1, 90)); params.push(b); }
         p["params"] = params;
+        static const std::vector<std::string> sysIds = { "path", "path", "url" };
+        if (selfDoc) { p["selfdoc"] = true; }
         // forms: the reference first
         static const std::vector<std::string> sf = { "stream", "inputsource", "file", "parsed", "parsed-xerces", "wrapper", "builder", "stwrapper" };
         static const std::vector<std::string> ssf = { "stream", "inputsource", "file", "compiled", "pi" };
         static const std::vector<std::string> tf = { "callback", "ostream", "cfile", "filename", "writer", "xercesdom", "sourcetree" };
         Json forms = Json::array();
         auto form = [&](const std::string& a, const std::string& b, const std::string& c, const std::string& layer) { Json f = Json::object(); f["src"] = a; f["ss"] = b; f["target"] = c; f["layer"] = layer;
-            f["chunk"] = (long long)gf.pick(std::vector<int>{ 0, 1, 3, 7, 64, 511, 512, 513 }); f["cseed"] = (long long)(gf.next() >> 12); f["buf"] = (long long)gf.pick(std::vector<int>{ 1, 2, 3, 5, 16, 511, 512, 513, 4096 }); f["tblock"] = (long long)gf.pick(std::vector<int>{ 1, 2, 7, 64, 1024 }); forms.push(f); };
+            f["chunk"] = (long long)gf.pick(std::vector<int>{ 0, 1, 3, 7, 64, 511, 512, 513 }); f["cseed"] = (long long)(gf.next() >> 12); f["buf"] = (long long)gf.pick(std::vector<int>{ 1, 2, 3, 5, 16, 511, 512, 513, 4096 }); f["tblock"] = (long long)gf.pick(std::vector<int>{ 1, 2, 7, 64, 1024 }); if (selfDoc) f["docsysid"] = gs.pick(sysIds); forms.push(f); };
         form("stream", "stream", "callback", "cpp");
         int n = (int)gf.range(3, 6);
+        static const std::vector<std::string> sfSelf = { "stream", "inputsource", "file", "parsed", "parsed", "parsed-xerces", "parsed-xerces", "wrapper", "builder", "stwrapper" }, ssfSelf = { "stream", "inputsource", "file", "compiled" };
         for (int i = 0; i < n; ++i) {
+            if (selfDoc) { form(gf.pick(sfSelf), gf.pick(ssfSelf), gf.pick(tf), "cpp"); continue; }   // real files next to each other, named by plain path or by URL
             unsigned k = (unsigned)gf.below(10);
             if (k == 0) form("file", gf.chance(1, 3) ? "pi" : "file", "filename", "capi");                      // XalanTransformToFile / ToData
             else if (k == 1) form("file", "file", gf.chance(1, 2) ? "capi-data" : "capi-handler", "capi");
@@ -67,7 +75,7 @@ struct C05 : public Driver {
                 form(a, b, gf.pick(tf), "cpp"); }
         }
         // fault mode: one destructive input fault applied identically to every form
-        if (g.chance(1, 5)) { for (auto& ff : forms.a) if (ff.str("ss") == "pi") ff["ss"] = "file";   // a fault inside the xml-stylesheet PI legitimately matters to the PI form only
+        if (!selfDoc && g.chance(1, 5)) { for (auto& ff : forms.a) if (ff.str("ss") == "pi") ff["ss"] = "file";   // a fault inside the xml-stylesheet PI legitimately matters to the PI form only
             SrcFault f; f.kind = g.chance(1, 2) ? "truncate" : "flip"; bool onDoc = g.chance(1, 2); const std::string& b = onDoc ? d.xml : s.xsl; f.a = g.below(b.size()); f.b = g.below(8); Json j = f.toJson(); j["on"] = onDoc ? "doc" : "xsl"; p["fault"] = j; }
         p["forms"] = forms;
         return p;
@@ -81,10 +89,16 @@ struct C05 : public Driver {
         if (layer == "cpp") {
             XEnv env; for (auto& kv : plan.at("resources").o) env.fs.put(kv.first, kv.second.s);
             applyParams(*env.T, params, env.manager());
-            XReq rq; rq.doc = plan.str("doc"); rq.xsl = plan.str("xsl"); rq.srcForm = f.str("src"); rq.ssForm = f.str("ss"); rq.tgtForm = tgt; rq.docFault = docF; rq.xslFault = xslF; rq.bufSize = (unsigned)f.num("buf", 512); rq.tblock = (unsigned)f.num("tblock", 1024);
+            XReq rq; rq.doc = plan.str("doc"); rq.xsl = plan.str("xsl"); rq.srcForm = f.str("src"); rq.ssForm = f.str("ss"); rq.tgtForm = tgt; rq.docFault = docF; rq.xslFault = xslF; rq.bufSize = (unsigned)f.num("buf", 512); rq.tblock = (unsigned)f.num("tblock", 1024); 
+            if (plan.has("selfdoc")) {
+                // everything lives in real files of one directory; the caller names the source by its plain path or by its URL
+                std::string dp = writeScratch(env, "doc.xml", rq.doc), sp = writeScratch(env, "ss.xsl", rq.xsl); for (auto& kv : plan.at("resources").o) writeScratch(env, kv.first, kv.second.s);
+                XalanDOMString u(env.manager()); URISupport::getURLStringFromString(xs(dp, env.manager()), u); rq.docUrl = toUtf8(u);
+                rq.docSysId = f.str("docsysid") == "url" ? rq.docUrl : dp; rq.ssSysId = sp; res.count("selfdoc:" + f.str("docsysid"));
+            }
             const XalanCompiledStylesheet* cs = nullptr; XformOut o;
             if (rq.ssForm == "compiled") {
-                env.fs.put("ss.xsl", rq.xsl); std::string seen = applySrcFault(rq.xsl, xslF); SimIStream is(seen, xslF); XSLTInputSource in(&is, env.manager()); in.setSystemId(xs(std::string(SIM_BASE) + "ss.xsl", env.manager()).c_str());
+                env.fs.put("ss.xsl", rq.xsl); std::string seen = applySrcFault(rq.xsl, xslF); SimIStream is(seen, xslF); XSLTInputSource in(&is, env.manager()); in.setSystemId(xs(rq.ssSysId.empty() ? std::string(SIM_BASE) + "ss.xsl" : rq.ssSysId, env.manager()).c_str());
                 XformOut tmp; try { int st = env.T->compileStylesheet(in, cs); if (st != 0) { fo.status = st; fo.err = env.T->getLastError(); removeScratch(env); return fo; } } SIM_CATCH_ALL(tmp) if (tmp.threw) { fo.threw = true; fo.exc = tmp.exc; removeScratch(env); return fo; }
             }
             SimSink sink; o = runTransform(env, rq, sink, nullptr, cs);
@@ -133,6 +147,7 @@ struct C05 : public Driver {
         for (auto& f : forms.a) {
             Json ff = f; if (utf16 && ff.str("target") == "capi-data") ff["target"] = "capi-handler";     // a NUL-terminated buffer cannot carry UTF-16
             FormOut o = runForm(plan, ff, res); outs.push_back(o);
+            if (getenv("C05_DUMP")) fprintf(stderr, "DUMP %s|%s|%s|%s st=%d [%s]\n%s\n", ff.str("src").c_str(), ff.str("ss").c_str(), ff.str("target").c_str(), ff.str("docsysid", "").c_str(), o.status, o.err.c_str(), (o.isTree ? o.canon : o.bytes).c_str());
             res.count("forms_run"); res.tag(ff.str("src") + "|" + ff.str("ss") + "|" + ff.str("target") + "|" + ff.str("layer"));
             if (ff.num("chunk")) res.count("fault:src-short-read"); if (ff.str("target") == "writer") res.count("fault:buf-sizes");
             tr.ev(ff.str("src") + ">" + ff.str("ss") + ">" + ff.str("target") + "@" + ff.str("layer") + " st=" + std::to_string(o.status) + " threw=" + o.exc + " out=" + hex64(fnvStr(o.isTree ? o.canon : o.bytes)));
